@@ -13,6 +13,7 @@
 import SfProps.C04Bridge
 import SfProps.C04Paf
 import SfProps.C04Ircam
+import SfProps.C04Svx
 namespace Sf.C04Bridge2
 open Sf Sf.AbsWrite Sf.AbsWriteBridge Sf.C04Bridge
 open Sf.AbsWriteBridge.Small (Cont Laws Valid small2Cont laws_of_small2 small2_machine_facts small_pred_good)
@@ -141,5 +142,101 @@ theorem ircam_rate_clause : ∀ sr ∈ [1, 8000, 11025, 44100, 48000, 65535, 655
       2 ^ 31 - 65, 2 ^ 31 - 64, 2 ^ 31 - 1],
     ∃ q, Ircam.rateQ sr = some q ∧ rateOk 0x0A sr (q : Int) = true ∧ (sr < 2 ^ 31 - 64 → q = roundF32 sr) := by
   decide +kernel
+
+/-! ## the wrapper for any `Cont` whose guard depends on the number of audio bytes only (generalises `small2_session_accepted`) -/
+
+theorem guarded_session_accepted (K : Cont) (P : Nat → Prop) (L : Laws K (guardOf (K.enc.nbytes * K.g.ch) P)) (ty : Ty) (stale stale' : Nat)
+    (ops : List Small.Op) (hv : Valid K.g.ch ty ops)
+    (hP : ∀ p post, ops = p ++ post → P ((Small.sampleList p).length * K.enc.nbytes)) :
+    accepted (Small.recordOf K ty stale stale' ops) = true := by
+  have hG : ∀ p, Valid K.g.ch ty p → P ((Small.sampleList p).length * K.enc.nbytes) →
+      guardOf (K.enc.nbytes * K.g.ch) P (Small.toW K ty false p) := by
+    intro p hvp hp
+    obtain ⟨g1, g2⟩ := Small.callsOf_good K.g.ch ty p hvp
+    have hl := samples_length K.g.ch _ g1
+    rw [g2] at hl
+    unfold guardOf
+    rw [Small.opsData_toW, Enc.encodeAll_length]
+    refine ⟨?_, hp⟩
+    rw [hl, Nat.mul_assoc, Nat.mul_comm K.g.ch]; exact Nat.mul_mod_left _ _
+  apply cont_session_accepted _ _ L ty stale stale' ops hv
+  · apply hG _ (Small.refOps_valid K.g.ch ty L.chpos ops hv)
+    rw [Small.refOps_samples]
+    simpa using hP ops [] (by simp)
+  · intro p post e
+    exact hG p (fun o ho => hv o (by rw [e]; simp [ho])) (hP p post e)
+
+/-! ## SVX (8SVX / 16SV, one channel, 16-bit saturating rate field) -/
+
+def svxGeom (c : Svx.Cfg) : AbsWrite.Geom := { word := c.endian * 0x10000000 + 0x060000 + c.codec, ch := c.ch, sr := c.sr }
+
+/-- THE MISSING FACT of the SVX model, as a hypothesis: the chunk-loop reader `Svx.parse` on a closed file of whole frames reports the
+    requested parameters, the saturated rate and D / bw frames.  lean/SfProps/C04Svx.lean proves the closed form of every byte of
+    the file and evaluates `parse` on concrete sessions (`svx_reopen_examples`); the universal theorem over the chunk loop is not
+    proved (its report) — with it `svx_session_accepted` is unconditional. -/
+def SvxReopens (c : Svx.Cfg) : Prop :=
+  ∀ st (w : List Sf.Small.WOp), (Sf.Small.opsData w).length % c.bw = 0 →
+    Svx.parse (Sf.Small.closedBytes (Svx.spec c) st w) =
+      .ok { ch := c.ch, fmt := c.fmtWord, sr := min c.sr 65535, frames := (Sf.Small.opsData w).length / c.bw }
+
+theorem svx_facts (c : Svx.Cfg) (hwf : c.wf) (hre : SvxReopens c) :
+    Small.Small1Facts (Svx.spec c) Svx.parse (svxGeom c) (encFor c.codec true)
+      (guardOf ((encFor c.codec true).nbytes * (svxGeom c).ch) (fun _ => True)) := by
+  obtain ⟨m1, m2, m3⟩ := Small.small1_machine_facts (Svx.spec c) (Sf.Svx.spec_lenOk c hwf) rfl rfl
+  obtain ⟨hcd, hch1, _⟩ := Sf.Svx.cfg_facts c hwf
+  have hend : c.endian = 0 ∨ c.endian = 2 := by
+    have := hwf.1; unfold Svx.accepted at this
+    simp only [Bool.decide_and, Bool.decide_or, Bool.and_eq_true, Bool.or_eq_true, decide_eq_true_eq] at this
+    exact this.2.1
+  have hcodec : (svxGeom c).codec = c.codec := by
+    show (c.endian * 0x10000000 + 0x060000 + c.codec) % 0x10000 = c.codec
+    rcases hcd with h | h <;> omega
+  have hmajor : (svxGeom c).major = 0x06 := by
+    show (c.endian * 0x10000000 + 0x060000 + c.codec) / 0x10000 % 0x1000 = 0x06
+    rcases hcd with h | h <;> omega
+  have henc : encOf .raw c.codec true = some (encFor c.codec true) := by
+    unfold encFor; rcases hcd with h | h <;> rw [h] <;> simp [encOf]
+  have hnbw : (encFor c.codec true).nbytes = c.bytewidth := by
+    unfold encFor Svx.Cfg.bytewidth; rcases hcd with h | h <;> rw [h] <;> simp [encOf, Enc.nbytes, PcmFmt.nbytes]
+  obtain ⟨hnb, hewf⟩ := encOf_props _ _ _ _ henc
+  have hbw : (encFor c.codec true).nbytes * (svxGeom c).ch = c.bw := by rw [hnbw]; rfl
+  have hfmt : c.fmtWord % 0x10000000 = (svxGeom c).word % 0x10000000 := by
+    show (0x060000 + c.codec) % 0x10000000 = (c.endian * 0x10000000 + 0x060000 + c.codec) % 0x10000000
+    rcases hcd with h | h <;> omega
+  refine { chpos := by show 0 < c.ch; omega, nb := hnb, wf := hewf,
+           block := C04.frames_bound_granular _ _ _ _
+             (by rw [hcodec]; rcases hcd with h | h <;> rw [h] <;> simp [Geometry.sampleGranular])
+             (by rw [hmajor]; simp),
+           notRaw := by rw [hmajor]; simp, codec := ⟨_, by rw [hcodec]; exact henc⟩,
+           snapForm := m1, closedForm := m2, closedFn := m3, closedParse := ?_, snapParse := ?_ }
+  · intro st ops hg
+    rw [hbw] at hg ⊢
+    have hm : (Sf.Small.opsData (Small.toS1 ops)).length % c.bw = 0 := by rw [Small.opsData_toS1]; exact hg.1
+    refine ⟨_, hre st _ hm, by show _ / c.bw = _; rw [Small.opsData_toS1], rfl, hfmt, ?_⟩
+    show rateOk (svxGeom c).major c.sr ((min c.sr 65535 : Nat) : Int) = true
+    rw [hmajor]
+    simp only [rateOk, rateClass]
+    simp only [show ((0x06 : Nat) == 0x04) = false from rfl, show ((0x06 : Nat) == 0x06) = true from rfl, Bool.true_or,
+      Bool.false_eq_true, if_false, if_true, Bool.or_eq_true, decide_eq_true_eq, beq_iff_eq]
+    by_cases h : 65536 ≤ c.sr
+    · exact Or.inl h
+    · right; rw [Nat.min_eq_left (by omega)]
+  · intro st w ⟨ops, hg, e⟩
+    rw [hbw] at hg ⊢
+    have hm : (Sf.Small.opsData w).length % c.bw = 0 := by rw [e]; exact hg.1
+    rw [C04Svx.snapshotBytes_eq c hwf]
+    exact ⟨_, hre st w hm, rfl, rfl, hfmt⟩
+
+/-- SVX: every job of whole frames is accepted, GIVEN the universal re-open fact of the chunk-loop reader (`SvxReopens`) -/
+theorem svx_session_accepted (c : Svx.Cfg) (hwf : c.wf) (hre : SvxReopens c) (ty : Ty) (stale stale' : Nat) (ops : List Small.Op)
+    (hv : Valid c.ch ty ops) :
+    accepted (Small.recordOf (Small.small1Cont (Svx.spec c) Svx.parse (svxGeom c) (encFor c.codec true)) ty stale stale' ops) = true :=
+  guarded_session_accepted _ _ (Small.laws_of_small1 (svx_facts c hwf hre)) ty stale stale' ops hv (fun _ _ _ => trivial)
+
+/-- `SvxReopens` on concrete sessions, by evaluation of the model's reader (8-bit at a saturating rate, 16-bit with a file name) -/
+example : Svx.parse (Sf.Small.closedBytes (Svx.spec C04Svx.exVio) 0 [.write [1, 2, 3] false]) =
+      .ok { ch := 1, fmt := C04Svx.exVio.fmtWord, sr := min C04Svx.exVio.sr 65535, frames := 3 } ∧
+    Svx.parse (Sf.Small.closedBytes (Svx.spec C04Svx.exCfg) 99 C04Svx.exOps) =
+      .ok { ch := 1, fmt := C04Svx.exCfg.fmtWord, sr := min C04Svx.exCfg.sr 65535, frames := 3 } := by decide +kernel
 
 end Sf.C04Bridge2
